@@ -8,7 +8,7 @@ from .registry import clause_text, clause_active
 SPEC_FUNCS = {"old", "implies", "forall", "exists", "isint", "isstr", "isnone", "isbool", "isref", "ispath", "isfloat",
               "isbytes", "elems", "at", "length", "result", "iff", "count_where", "isclass", "keys", "lookup", "haskey",
               "distinct", "isfile", "isdir", "exists_path", "issymlink", "fs_text", "fs_target", "effect", "no_effect",
-              "effect_count", "fresh", "unchanged", "ite", "seq_eq", "raised", "isfresh"}
+              "effect_count", "fresh", "unchanged", "ite", "seq_eq", "raised", "isfresh", "forall_keys", "forall_val", "isregular"}
 
 
 class CallMixin:
@@ -17,7 +17,7 @@ class CallMixin:
         f = n.func
         if any(isinstance(a, ast.Starred) for a in n.args) or any(k.arg is None for k in n.keywords):
             raise Unsupported(f"*args/**kwargs call at line {n.lineno}")
-        if self.spec_depth and isinstance(f, ast.Name) and f.id in SPEC_FUNCS:
+        if self.spec_depth and isinstance(f, ast.Name) and (f.id in SPEC_FUNCS or f.id in self.reg.specfuns):
             return self.spec_call(st, n)
         if isinstance(f, ast.Name):
             nm = f.id
@@ -206,8 +206,22 @@ class CallMixin:
                     rt = base_type(c.get("returns"))
                     self.assume_type(s2, res)
                 b2["result"] = res
-            for post in posts:
-                s2.assume(self.spec(s2, old, clause_text(post), b2))
+            lo = s2.front
+            if kind == "normal" and c.get("fresh"):
+                lo = old.front
+            hi = fresh_int("front")
+            s2.assume(hi >= s2.front)
+            s2.front = hi
+            for f_ in {w[0] for w in s2.writes[len(old.writes):]}:
+                if f_ in s2.heap and not f_.startswith("$fs") and f_ != "$class" and f_ != "$dhas":
+                    self.alloc_axiom(s2, f_)
+            saved_fr = self._fresh_range
+            self._fresh_range = (lo, hi)
+            try:
+                for post in posts:
+                    s2.assume(self.spec(s2, old, clause_text(post), b2))
+            finally:
+                self._fresh_range = saved_fr
             if eff:
                 s2.trace.append(Effect(eff, list(args), lineno, s2.copy()))
             if kind == "normal":
@@ -223,8 +237,15 @@ class CallMixin:
 
     def assume_type(self, st, v):
         """dynamic tag facts implied by a declared static type"""
-        ty = base_type(v.ty)
         t = v.t
+        if v.ty and v.ty.startswith("opt:"):
+            inner = V(t, v.ty[4:])
+            s2 = State(); s2.heap = st.heap
+            self.assume_type(s2, inner)
+            if s2.pc:
+                st.assume(z3.Or(Val.is_NoneV(t), z3.And(*s2.pc)))
+            return
+        ty = base_type(v.ty)
         if ty == "int": st.assume(Val.is_IntV(t))
         elif ty == "str": st.assume(Val.is_StrV(t))
         elif ty == "bool": st.assume(Val.is_BoolV(t))
@@ -238,6 +259,9 @@ class CallMixin:
             st.assume(Val.is_RefV(t))
             if ty in ("list", "set", "tuple", "dict"):
                 st.assume(z3.Select(st.field("$class"), Val.r(t)) == self.reg.classtag(ty))
+            elif ty not in ("Mutex",):
+                subs = self.reg.subclasses(ty)
+                st.assume(z3.Or(*[z3.Select(st.field("$class"), Val.r(t)) == self.reg.classtag(c) for c in subs]))
         elif ty and ty.startswith("opt:"):
             inner = V(t, ty[4:])
             s2 = State(); s2.heap = st.heap
@@ -246,17 +270,42 @@ class CallMixin:
                 st.assume(z3.Or(Val.is_NoneV(t), z3.And(*s2.pc)))
 
     def apply_modifies(self, st, old, mods, binds):
+        self._pending_fs_hooks = []
+        self._apply_modifies(st, old, mods, binds)
+        for pv, ok_, ot_ in self._pending_fs_hooks:
+            for h in self.fs_write_hooks:
+                h(self, st, pv, ok_, ot_)
+        self._pending_fs_hooks = []
+
+    def _apply_modifies(self, st, old, mods, binds):
         for m in mods:
             m = clause_text(m)
             if m.startswith("*."):
                 self.havoc_heap_field(st, m[2:])
             elif m.startswith("elems(") or m.startswith("dict("):
                 obj = self.spec_v(old, old, m[m.index("(") + 1:-1], binds)
-                flds = ["$elems"] if m.startswith("elems(") else ["$dkeys", "$dmap"]
+                flds = ["$elems"] if m.startswith("elems(") else ["$dkeys", "$dmap", "$dhas"]
                 for f in flds:
                     srt = field_sort(f).range()
                     st.write(f, Val.r(obj.t), z3.Const(fresh_name("hv"), srt))
-            elif m.startswith("fs"):
+            elif m.startswith("fs(") or m.startswith("fs_tree("):
+                from .fsmodel import p_under
+                pv = Val.p(self.spec_v(old, old, m[m.index("(") + 1:-1], binds).t)
+                ok_, ot_ = st.field("$fs_kind"), st.field("$fs_text")
+                if m.startswith("fs("):
+                    self._pending_fs_hooks = getattr(self, "_pending_fs_hooks", []) + [(pv, ok_, ot_)]
+                for f in ("$fs_kind", "$fs_text", "$fs_target"):
+                    if m.startswith("fs("):
+                        st.heap[f] = z3.Store(st.field(f), pv, z3.Const(fresh_name("hv"), field_sort(f).range()))
+                        st.writes.append((f, pv))
+                    else:
+                        oldarr = st.field(f)
+                        new = z3.Const(fresh_name("H_" + f), field_sort(f))
+                        q = z3.Const(fresh_name("q"), PathS)
+                        st.assume(qforall([q], z3.Implies(z3.Not(p_under(q, pv)), z3.Select(new, q) == z3.Select(oldarr, q)), patterns=[z3.Select(new, q)]))
+                        st.heap[f] = new
+                        st.writes.append((f, ("tree", pv)))
+            elif m == "fs":
                 for f in ("$fs_kind", "$fs_text", "$fs_target"):
                     st.havoc_field(f)
             else:
@@ -279,6 +328,7 @@ class CallMixin:
         before = st.copy()
         for f in cfg.get("shared", []):
             self.havoc_heap_field(st, f)
+            self.alloc_axiom(st, f)
         for e in cfg.get("rely", []):
             st.assume(self.spec(st, before, clause_text(e), binds))
         st.trace.append(Effect("await", [], lineno, None))
